@@ -607,6 +607,8 @@ func c11Real(c *Ctx) error {
 		{"application/json", "{ \"a\" : [ 1.0 , 2 ] }"}, {"application/ld+json", "{ \"A\" : 1 ,"},
 		// payloads whose (minified) bytes need escaping in the host syntax: parentheses, quotes, blanks, backslash
 		{"text/plain", "a(b)"}, {"text/plain", "it's (x) y"}, {"text/plain", "say \"hi\" (now)"}, {"text/plain", "a b\\c )"}, {"text/plain", "((((((((((()))))))))))"},
+		{"application/json", `{"k" : "<<<<>>>>####{{{{}}}}"}`}, {"application/json", `[ "<>#{}<>#{}<>#{}" ,"<>#{}"]`}, {"application/ld+json", `{"@" :"{{{{[[[[<<<<####"}`},
+		{"text/css", `a{content:"<<<>>>###{{{}}}" ; }`}, {"image/svg+xml", `<svg xmlns="http://www.w3.org/2000/svg"><a b="<>#{}[]"/> </svg>`},
 		{"text/css", "a { content : '(' }"}, {"text/css", "a{content:\")\"}"}, {"application/javascript", "f ( 'x' ) ;"}, {"application/javascript", "g ( \"y\" , ( 1 ) )"},
 	}
 	n := c.N(600, 20000)
@@ -698,6 +700,47 @@ func c11Real(c *Ctx) error {
 			c.R.Add(h.Finding{Stage: st.Name, Kind: "fail", What: "embedded content is not what its own minifier produces (or, on failure, not the original payload)", Input: key, Impl: h.Q([]byte(got)), Model: h.Q([]byte(want))})
 		}
 	}
+	// SVG style attributes and style elements through the real CSS minifier, with values the svg layer may have to give back
+	// unchanged (the minified result is not character data): what is written must be the minified value or the ORIGINAL value
+	// (white space normalised), never a buffer the sub-minifier has half rewritten in place
+	{
+		decls := []string{"stroke-width:  0.50px", "margin : 0.250px   1.0px", "fill:#FF0000", "opacity:0.50", "width: 10.0px ", "font-size:1.0em"}
+		tails := []string{"a:&amp;", "a:&lt;", "a:&#38;", "b:c&amp;", "b:&quot;x&quot;", "c:d", "", "a:&amp;;"}
+		for k := 0; k < c.N(300, 6000); k++ {
+			r := c.Rng.Fork()
+			var parts []string
+			for i := 1 + r.Intn(3); i > 0; i-- {
+				parts = append(parts, r.Pick(decls))
+			}
+			if t := r.Pick(tails); t != "" {
+				parts = append(parts, t)
+			}
+			val := strings.Join(parts, r.Pick([]string{";", " ; ", ";\n  "})) + r.Pick([]string{"", " ", ";"})
+			doc := `<svg xmlns="http://www.w3.org/2000/svg"><g style="` + val + `" id="i"/></svg>`
+			host := "image/svg+xml"
+			if r.Chance(40) {
+				doc = "<p>t</p>" + doc
+				host = "text/html"
+			}
+			m := reg()
+			out, err := m.String(host, doc)
+			key := fmt.Sprintf("%s host doc=%q (style attribute, real css minifier)", host, doc)
+			st.Count(key, true)
+			if err != nil {
+				continue // a CSS syntax error is reported: nothing to compare
+			}
+			got, ok := c11StyleAttr(out)
+			if !ok {
+				c.R.Add(h.Finding{Stage: st.Name, Kind: "fail", What: "style attribute not found in the output", Input: key, Impl: h.Q([]byte(out))})
+				continue
+			}
+			orig := c11Trim(c11WsRe.ReplaceAllString(xhtml.UnescapeString(val), " "))
+			sub, serr := reg().String("text/css;inline=1", orig)
+			if got != orig && !(serr == nil && got == sub) {
+				c.R.Add(h.Finding{Stage: st.Name, Kind: "fail", What: "style attribute value is neither what the CSS minifier produces for it nor the original value", Input: key, Impl: h.Q([]byte(got)), Model: h.Q([]byte(sub)) + " or " + h.Q([]byte(orig))})
+			}
+		}
+	}
 	// CSS escapes inside a quoted data URI belong to the host syntax: the payload is what the CSS string denotes
 	for _, fc := range []struct{ doc, want string }{
 		{`a{b:url('data:text/plain,a\'b c')}`, "a'b c"},
@@ -725,6 +768,27 @@ func c11Real(c *Ctx) error {
 	}
 	st.End()
 	return nil
+}
+
+// c11StyleAttr returns the decoded value of the first style attribute of the output (x/net/html tokenizer)
+func c11StyleAttr(out string) (string, bool) {
+	z := xhtml.NewTokenizer(strings.NewReader(out))
+	for {
+		tt := z.Next()
+		if tt == xhtml.ErrorToken {
+			return "", false
+		}
+		if tt == xhtml.StartTagToken || tt == xhtml.SelfClosingTagToken {
+			_, more := z.TagName()
+			for more {
+				var k, v []byte
+				k, v, more = z.TagAttr()
+				if string(k) == "style" {
+					return string(v), true
+				}
+			}
+		}
+	}
 }
 
 // c11ExtractDataURI finds the data: URI in a host output (HTML attribute value via the x/net/html tokenizer, CSS url(...)
